@@ -5,5 +5,6 @@ CONSTANTS
     ValueLens = {0, 1, 255, 256}
     ProgLens <- ProgLensQuick
     NthArgs <- NthArgsQuick
-INVARIANTS InRange WalkInvs StopsForGood OnTheWalk Bounded ItemCount Export
+PROPERTY RefinesAbstract
+INVARIANTS AbsSafe InRange WalkInvs StopsForGood OnTheWalk Bounded ItemCount Export
 CHECK_DEADLOCK FALSE
